@@ -416,11 +416,10 @@ UPGRADER:
 			}
 		case stateHeaderValueBefore:
 			switch c {
-			case ' ':
+			case ' ', '\t':
 			case '\r':
-				if p.headerValue == "" {
-					p.headerValue = string(data[start:i])
-				}
+				// only optional whitespace was seen: the value is empty.
+				p.headerValue = ""
 				switch p.headerKey {
 				case transferEncodingHeader, trailerHeader, contentLengthHeader:
 					if p.header == nil {
@@ -449,7 +448,8 @@ UPGRADER:
 			switch c {
 			case '\r':
 				if p.headerValue == "" {
-					p.headerValue = string(data[start:i])
+					// optional whitespace around a field value is not part of the value.
+					p.headerValue = strings.TrimRight(string(data[start:i]), " \t")
 				}
 				switch p.headerKey {
 				case transferEncodingHeader, trailerHeader, contentLengthHeader:
@@ -626,7 +626,7 @@ UPGRADER:
 			}
 		case stateBodyTrailerHeaderValueBefore:
 			switch c {
-			case ' ':
+			case ' ', '\t':
 			case '\r':
 				// empty trailer value
 				if len(p.trailer) == 0 {
@@ -650,7 +650,7 @@ UPGRADER:
 			switch c {
 			case '\r':
 				if p.headerValue == "" {
-					p.headerValue = strings.TrimRight(string(data[start:i]), " ")
+					p.headerValue = strings.TrimRight(string(data[start:i]), " \t")
 				}
 				if len(p.trailer) == 0 {
 					return fmt.Errorf("invalid trailer '%v'", p.headerKey)
